@@ -207,6 +207,21 @@ CLAIMED = {
    technique="contract-stubbed proxy execution of the real rules (ALG for pinv, index domain with ghost triplet enumeration for svd); bounded execution of the real code "
              "as stand-in for the Lanczos and Diagonal svd rules",
    engine="ALG+IDX"),
+ "C14": dict(
+   category="proof",
+   text="The real closures of lanczos_fact (body_fun with do_double_gram, cond_fun), init_lanczos, the wrapper lanczos and lanczos_eigs run in the index domain "
+        "with sum atoms over symbolic batch size, dimension n, iteration cap and an arbitrary loop state; every result array is proved equal, entry by entry at an "
+        "arbitrary position, to the Lanczos process written as a spec function of the state (normalisation, alpha = <Aq,q>, three-term recurrence, two "
+        "Gram-Schmidt passes with the conjugate on the basis vector, beta = ||w||), the stopping rule (i <= cap and Re beta_{i-1} > tol Re beta_1 for some column, "
+        "or i <= 1), the initial state (v/||v||, zero buffers of the operator's dtype), the cap min(max_iters, n), the trimming that builds Q and the symmetric "
+        "tridiagonal T from the final state, and for lanczos_eigs: eigh applied to T, ascending values, Ritz vector i = Q y_sigma(i), every pair once.",
+   design_ref="4.14",
+   note="That the specified process yields an orthonormal Krylov basis with T = Q^H A Q and A Q - Q T confined to the last column is the Lanczos theorem (Golub & Van Loan "
+        "Thm 10.1.1), ASSUMED and not formalised; it is additionally exercised by a bounded stand-in on the real code (n <= 40), labelled bounded. Exact arithmetic (no loss "
+        "of orthogonality); batched start vectors need xnp.vmap (absent on NumPy); complex entries are opaque with conj/Re/|.|^2 uninterpreted.",
+   technique="proxy execution of the real loop closures in an index-function domain with summation atoms (lambda terms); code-equals-spec-function obligations discharged by z3/cvc5; "
+             "bounded execution of the real code for the theorem-level clauses",
+   engine="IDX"),
 }
 
 NOT_YET = "check not built yet in this session (framework under construction; see DESIGN.md section 10 for the order of work)"
